@@ -79,6 +79,7 @@ def run(ctx):
     chk, repo = ctx.chk, ctx.repo
     for rid, txt in (
         ("R14.a", "no write to an instance/operation attribute, instance.jobs, operation.machines or a cached derived view outside the instance's own constructors"),
+        ("R14.f", "no derived view of the instance is accumulated with `a[ids] = f(a[ids], ...)` over an id list that can contain repeats"),
         ("R14.e", "Schedule.to_dict emits each machine's job ids in list order (no reordering other than a stable chronological sort)"),
         ("R14.b", "dictionary writers and readers agree on keys (to_dict <-> from_matrices / from_dict / benchmark loader)"),
         ("R14.c", "each iteration of from_job_sequences' loop dispatches at least once or raises ValidationError"),
@@ -306,6 +307,37 @@ def _keys(ctx, inst):
         chk.ok("R14.b", sd.qualname, sd.loc(d2), f"keys {sorted(k2)} = from_dict parameters")
     else:
         chk.violation("R14.b", sd, d2, f"Schedule.to_dict keys {sorted(k2)} differ from from_dict's parameters {fd.params}", loc=sd.loc(d2))
+    # R14.f: derived views computed with buffered fancy-index updates
+    inst = repo.find_class("JobShopInstance")
+    n_upd = 0
+    for m in inst.methods.values():
+        for n in own_nodes(m.node):
+            # a[idx] = f(a[idx], ...)   /   a[idx] += ...   with idx an array / list of ids
+            tgt = n.targets[0] if isinstance(n, ast.Assign) and len(n.targets) == 1 else n.target if isinstance(n, ast.AugAssign) else None
+            if not (isinstance(tgt, ast.Subscript) and not isinstance(tgt.slice, (ast.Slice, ast.Constant))):
+                continue
+            tt = ast.unparse(tgt)
+            # the vectorised read-modify-write idiom: a[idx] = np.<ufunc>(a[idx], ...)
+            v = n.value
+            ufunc_rmw = (
+                isinstance(n, ast.Assign) and isinstance(v, ast.Call) and ast.unparse(v.func).split(".")[0] in ("np", "numpy")
+                and any(ast.unparse(a) == tt for a in v.args)
+            )
+            idx_t = ctx.types.type_of(m.module, tgt.slice) or ""
+            scalar = idx_t in ("builtins.int", "int") or (isinstance(tgt.slice, ast.Name) and any(
+                isinstance(lp, ast.For) and isinstance(lp.iter, ast.Call) and ast.unparse(lp.iter.func) == "range"
+                and any(isinstance(x, ast.Name) and x.id == tgt.slice.id for x in ast.walk(lp.target)) for lp in own_nodes(m.node)))
+            if ufunc_rmw and not scalar:
+                n_upd += 1
+                chk.violation(
+                    "R14.f", m, n,
+                    f"`{ast.unparse(n)[:90]}` updates an array through an index *list*: numpy evaluates the right-hand side once and "
+                    "keeps a single write per repeated index, so when an id occurs twice in the list (a job visiting a machine twice) "
+                    "one of the contributions is lost and the derived view differs from its definition (use np.<ufunc>.at)",
+                    loc=m.loc(n),
+                )
+    if n_upd == 0:
+        chk.ok("R14.f", inst.qualname, "", "no derived view is accumulated through a fancy-index read-modify-write")
     # R14.e: the emitted job sequences keep the order of the machine lists
     sdf = ctx.norm.flat(sd)
     ops = list(reorder_ops(sdf.node))
